@@ -100,15 +100,59 @@ def run(tier):
         if h in hs:
             v.violation("c11:id-collision", "two python-database zones share an id", {"a": name, "b": hs[h]})
         hs[h] = name
+    # --- freshly compiled source (tzdata 2025b, both scopes): generated registry order, ids, links
+    import re
+    import c03worker
+    import tzpipe
+    import tzsrc
+    p25, _ = c03worker.tz2025b(True)
+    indir = tzpipe.write_input_dir(tzsrc.render_long(p25), out / "in25")
+    gens, comps = {}, {}
+    try:
+        for scope, ns in (("extended", "gendbx"), ("basic", "gendb")):
+            comp = tzpipe.compile_source(indir, scope, 2000, 2050)
+            comps[scope] = comp
+            gens[scope] = out / ("gen-" + scope)
+            tzpipe.generate_arduino(comp, gens[scope], ns)
+        objs = []
+        for sc in gens:
+            objs += vlib.build_gen_objects([gens[sc] / f for f in ("zone_infos.cpp", "zone_policies.cpp", "zone_registry.cpp")], "sanrec",
+                                           includes=[gens[sc]], outdir=out / ("obj-" + sc))
+        defs = ["VERIF_GEN_REGISTRY_H=\"%s\"" % (gens["extended"] / "zone_registry.h"), "VERIF_GEN_REGISTRY_H2=\"%s\"" % (gens["basic"] / "zone_registry.h"),
+                "VERIF_EXT_NS=gendbx", "VERIF_BASIC_NS=gendb"]
+        gexe = build(VERIF / "native" / "registry.cpp", "sanrec", defines=defs, extra_objects=objs, name="registry_gen")
+        rg = run_shards(gexe, [["--mode", "c11gen"]], san="rec", timeout=900)
+        v.absorb(rg, "c11gen")
+        c.update(rg.counters)
+        for i in rg.infos:
+            scope = i.get("gen")
+            if scope and sorted(i["names"]) != sorted(comps[scope].tzdb["zones_map"]):
+                v.violation("c11:generated-registry-zone-set", "generated registry does not list exactly the emitted zones", {"scope": scope})
+        for scope, gen in gens.items():
+            txt = (gen / "zone_infos.cpp").read_text()
+            got = dict(re.findall(r"^const \w+::ZoneInfo& kZone(\w+) = kZone(\w+);", txt, re.M))
+            want = {transformer.normalize_name(l): transformer.normalize_name(t) for l, t in comps[scope].tzdb["links_map"].items()}
+            c["generated_links_checked"] = c.get("generated_links_checked", 0) + len(want)
+            if got != want:
+                v.violation("c11:generated-link-wrong-target", "generated link references do not denote the source's targets",
+                            {"scope": scope, "diff": sorted(set(got.items()) ^ set(want.items()))[:6]})
+            for l, t in comps[scope].tzdb["links_map"].items():
+                if p25["links"].get(l) != t:
+                    v.violation("c11:generated-link-wrong-target", "emitted link target differs from the source", {"scope": scope, "link": l})
+    except (tzpipe.CompilerDied, vlib.BuildError) as e:
+        v.violation("c11:fresh-compilation-failed", "fresh compilation of tzdata 2025b failed", {"error": str(e)[-600:]})
     c.update({"python_hash_checked": n_hash, "baseline_checked": n_base, "python_db_names": n_py, "python_db_common": common_py})
-    if c.get("c11.registry_entries", 0) < 600 or c.get("c11.links", 0) < 300 or n_base < 300 or common_py < 300:
+    if c.get("c11.generated_registry_entries", 0) < 600 or c.get("c11.registry_entries", 0) < 600 or c.get("c11.links", 0) < 300 or n_base < 300 or common_py < 300:
         v.inconclusive_because("deciding counters too low: %r" % c)
     v.coverage.update({
-        "evaluations": c.get("c11.registry_entries", 0) + c.get("c11.symbols", 0) + c.get("c11.links", 0) + n_hash + n_py,
+        "evaluations": c.get("c11.registry_entries", 0) + c.get("c11.symbols", 0) + c.get("c11.links", 0) + n_hash + n_py
+        + c.get("c11.generated_registry_entries", 0) + c.get("generated_links_checked", 0),
         "distinct_nontrivial": len(set(ids["zonedb"]) | set(ids["zonedbx"])) + sum(len(meta[d]["links"]) for d in meta),
         "rule": "every registry entry, every declared kZone*/kZoneId* symbol (compiled value, through a generated table linked "
                 "against the real headers) and every declared link reference of zonedb and zonedbx; C++ djb2 and Python djb2 "
-                "oracles; tools hash_name on every name; recorded id baseline; names of tools/zonedbpy. distinct = distinct zone "
+                "oracles; tools hash_name on every name; recorded id baseline; names of tools/zonedbpy; plus a fresh compilation of tzdata "
+                "2025b in both scopes: generated registries compiled and checked for strictly ascending order, djb2 ids, uniqueness, "
+                "findability of every entry through the library's own lookup, and link references vs the source. distinct = distinct zone "
                 "names + distinct links.",
         "samples": [{"zone": n, "id": "0x%08x" % i} for n, i in list(ids["zonedbx"].items())[:4]]
         + [{"link": l, "target": t} for _, l, t in meta["zonedbx"]["links"][:3]],
